@@ -185,13 +185,17 @@ func c01Harness(cfg *Cfg) func(x *mc.Exec) {
 			if !k.Accelerated() {
 				return
 			}
-			fam := x.Choose(11, "shape")
+			fam := x.Choose(12, "shape")
 			if !cfg.Thorough && fam >= 3 && (k.Level == -1 || k.Kind == "flate4k" && k.Level > 2) {
 				return // quick tier: the sweeps run on one setting per distinct compressor (default = level 2; 4 KiB levels 3..9 = level 2)
 			}
 			var d []byte
 			var nm string
 			switch fam {
+			case 11: // one block with both trees near the 15-bit limit that ends in a match token of maximal width
+				tl := x.Choose(16, "tail")
+				d = pieces.DeepToken(tl, cfg.Seed)
+				nm = fmt.Sprintf("deeptoken(tail=%d)", tl)
 			case 10: // the deepest trees: Lucas counts over 2..24 byte values (22 values = 64077 bytes fill one Huffman-only block)
 				kk := 2 + x.Choose(23, "lucas")
 				d = pieces.Lucas(kk, cfg.Seed)
